@@ -123,6 +123,8 @@ def result(lemma, case, q, **kw):
     r['inconclusive'] = q.inconclusive[:10]
     r['obligations'] = len(q.proved) + len(q.failed) + len(q.inconclusive)
     r.update(kw)
+    gw = sorted(set(irsym.GLOBAL_WRITES)); del irsym.GLOBAL_WRITES[:]
+    r['global_writes'] = [list(x) for x in gw][:20]
     return r
 
 def extent_checks(q, pc, mem, prefix='extent'):
